@@ -136,6 +136,8 @@ def _has_broken_frame(rec) -> bool:
         v = f["cols"][0][2]
         if len(v) >= 3 and v[0] == "G1" and v[1] == "G2" and v[2] == "G1":
             return True
+        if len(f["cols"]) > 1 and f["cols"][1][2][:3] == ["S0", "S1", "S0"]:
+            return True
     return False
 
 
